@@ -8,10 +8,13 @@ Spaces == [ s1 |-> << Dom("int", 1, 4, 0), Dom("cat", 0, 0, 2) >>,
 P2Es == [ none |-> << >>, default |-> << <<-1, -1>> >>,
           dup |-> << <<1, -1>>, <<-1, 1>>, <<1, -1>>, <<0, 0>> >>,
           partial |-> << <<-1, 1>>, <<0, -1>> >> ]
-Conf == [doms |-> Spaces[SpaceName], p2e |-> P2Es[P2EName], norepeat |-> NoRep, finite |-> TRUE]
+Conf == [doms |-> Spaces[SpaceName], p2e |-> P2Es[P2EName], norepeat |-> NoRep, finite |-> TRUE, nofail |-> TRUE]
 Init == InitCommon(Conf)
 Spec == Init /\ [][Next]_vars
 Bound == nsug <= 10
+\* Which trial was started with which configuration only matters through the set of configurations that can fail, and
+\* that set is "suggested": states that differ in byTrial alone have the same futures as far as the flags go
+MCView == <<cf, queue, suggested, nsug, done, failedc, flags>>
 \* grid / random search on a finite space: every configuration exactly once before "nothing left"
 ExactlyOnce == (done /\ NoRep) => Cardinality(suggested) = SpaceSize /\ nsug = SpaceSize
 =============================================================================
